@@ -346,11 +346,16 @@ class _Continue(Exception):
     pass
 
 
+class ChunkDependent(Exception):
+    """the framing decision reads or moves the read position / buffer extent: it depends on how input is split across read() calls"""
+
+
 class PipeMachine:
     def __init__(self, fx):
         self.fx = fx
         f = fx.func('opensmt::Interpret::interpPipe')
         self.f = f
+        self.chunk_dependent = None
         top = f['body']['c']
         # locals declared at function top level (they survive across read() calls)
         self.top_decls = {s['n']: s for s in top if isinstance(s, dict) and s.get('k') == 'decl'}
@@ -379,7 +384,10 @@ class PipeMachine:
                 self.counter = n['e']['n']
         if not self.counter or self.counter not in self.top_decls:
             raise AnalysisBroken('interpPipe: parenthesis counter not found at function scope')
-        idx = self.loop.get('init')
+        self.loop_vars = set()
+        for n in walk(self.loop.get('cond')):
+            if n.get('k') == 'ref':
+                self.loop_vars.add(n['n'])
         self.literals = set()
         for n in walk(self.loop['body']):
             if n.get('k') == 'chr':
@@ -400,7 +408,11 @@ class PipeMachine:
         if k == 'ref':
             if e['n'] in env:
                 return env[e['n']]
+            if e['n'] in self.top_decls or e['n'] in self.loop_vars:
+                raise ChunkDependent('reads %s' % e['n'])
             raise Unsupported('variable %s' % e['n'])
+        if k == 'un' and e['op'] in ('++', '--') and isinstance(e['e'], dict) and e['e'].get('k') == 'ref' and (e['e']['n'] in self.top_decls or e['e']['n'] in self.loop_vars) and e['e']['n'] != self.counter:
+            raise ChunkDependent('moves %s' % e['e']['n'])
         if k == 'lit':
             return e['v']
         if k == 'chr':
@@ -422,6 +434,14 @@ class PipeMachine:
                     raise Unsupported('assignment to %s' % path_of(e['l']))
                 env[e['l']['n']] = v
                 return v
+        # any other operator: its operands decide whether this is a chunk dependence or merely unmodelled syntax
+        for key in ('l', 'r', 'e', 'b', 'i'):
+            v = e.get(key)
+            if isinstance(v, dict):
+                try:
+                    self.ev(v, env)
+                except Unsupported:
+                    pass
         raise Unsupported('expression %s %s' % (k, e.get('op', '')))
 
     def run(self, s, env, out):
@@ -468,6 +488,9 @@ class PipeMachine:
             pass
         except Unsupported as u:
             raise AnalysisBroken('interpPipe framing loop uses a construct outside the modelled subset: %s' % u)
+        except ChunkDependent as cd:
+            self.chunk_dependent = str(cd)
+            return state, None
         if len(out) > 1:
             raise AnalysisBroken('interpPipe: more than one counter update for one character')
         return tuple(env[f] for f in self.flags), (out[0] if out else None)
@@ -540,6 +563,12 @@ def run(src, tier, seed):
                 seen[n] = (s, c)
                 q.append(n)
     r['instances'] = trans
+    r_chunk = res.rule('framing-independent-of-chunking', 'outside the frame-a-command action, the framing loop body is a function of its flags and the current byte only: it neither reads '
+                       'nor moves the read position / buffer extent (which depend on how the input is split across read() calls)', floor=1)
+    if pm.chunk_dependent:
+        res.bad(r_chunk, 'chunk-dependent-framing', fx.loc(pm.f, pm.loop.get('ln')), 'the pipe reader framing decision %s: the same script framed differently depending on where a read() boundary falls' % pm.chunk_dependent)
+    else:
+        res.ok(r_chunk, 'loop body uses only %s, the current byte and the counter %s' % (pm.flags, pm.counter))
     if bad:
         word, po, lo, st = bad
         r['violations'] = 1
